@@ -79,18 +79,23 @@ def define():
                     clone(a, tr, b, "B3D", L=2, tier="rot12")
                 else:
                     clone(a, tr, b, "B3D", L=2, ln=(2 if a != "Nothing" else 1), tier="rot12")
-    # thorough: full cross product
-    for tr in CLONEABLE:
-        for b in ("heap", "stack", "reloc", "stackn"):
-            for elem in ("B3D", "W8D", "W8", "B1", "Z0D"):
-                if elem == "Z0D" and b in ("stack", "stackn"):
-                    continue
-                for a in AFTERS:
-                    if b in ("stack", "stackn"):
-                        clone(a, tr, b, elem, L=3, tier="thorough")
-                    else:
-                        for n in (0, 1, 2, 3):
-                            clone(a, tr, b, elem, L=3, ln=n, tier="thorough")
+    # thorough: every after-step x backend x element kind on the plain Cloneable set; the other cloneable constraint
+    # sets differ only in marker traits (same clone_fn), so they get three after-steps each
+    for b in ("heap", "stack", "reloc", "stackn"):
+        for elem in ("B3D", "W8D", "W8", "Z0D"):
+            if elem == "Z0D" and b != "heap":
+                continue
+            for a in AFTERS:
+                if b in ("stack", "stackn"):
+                    clone(a, "clone", b, elem, L=3, tier="thorough")
+                else:
+                    for n in (1, 3):
+                        clone(a, "clone", b, elem, L=3, ln=n, tier="thorough")
+    clone("Nothing", "clone", "heap", "B1", L=3, ln=3, tier="thorough")
+    for tr in ("csend", "csync", "call"):
+        for b in ("heap", "stack"):
+            for a in ("Nothing", "PushClone", "MutateOrig"):
+                clone(a, tr, b, "B3D", L=3, ln=None if b == "stack" else 2, tier="thorough")
     for b in ("heap", "stack", "reloc", "stackn"):
         for x in ("heap", "stack", "reloc", "stackn"):
             clone_empty(False, "clone", b, x, "W8D", tier="thorough")
